@@ -210,6 +210,18 @@ def openStream (s : WState) (num gen : Nat) (dict : List (Bytes × Obj)) (userLe
                    stm := some { num := num, gen := gen, dict := dict, userLen := userLen, buf := [],
                                  started := false, startPos := 0, patchPos := none, lenRef := none } }
 
+/-- an `OpenStream` call that enters its cross-reference entry (`setXRef` succeeds) and then fails
+    — a filter that cannot be encoded, a `/Length` of the wrong type, a Crypt probe, … — while the
+    program goes on: the entry is rolled back, only `nextRef` stays pushed past the number
+    (library commit 7c9953a; before it the entry stayed and pointed at the next object written) -/
+def openStreamFail (s : WState) (num gen : Nat) : Except Err WState :=
+  match s.stm with
+  | some _ => .error .other
+  | none =>
+    match setXRef s.xref s.nextRef num { inStream := 0, pos := s.pos, gen := gen } with
+    | none => .error .other
+    | some (_, n) => .ok { s with nextRef := n }
+
 /-- `streamWriter.Write` -/
 def streamWrite (s : WState) (p : Bytes) : Except Err WState :=
   match s.stm with
@@ -471,6 +483,13 @@ inductive Op where
   | closeStream
   | writeCompressed (items : List (Nat × Nat × Obj)) (raws : List Bytes)
   | close (cat : Obj) (info : Option Obj) (trailer : List (Bytes × Obj)) (xrefRaw : Bytes)
+  /-- `OpenStream` failing behind `setXRef`; the program continues -/
+  | openStreamFail (num gen : Nat)
+  /-- an operation the Writer refused before doing anything (a second definition of a number,
+      `OpenStream`/`WriteCompressed` while a stream is open, a reference or a non-zero generation
+      in `WriteCompressed`, …); the program continues with the state unchanged.  The model must
+      refuse the operation as well. -/
+  | rejected (op : Op)
   deriving Repr, Inhabited
 
 def step (s : WState) : Op → Except Err WState
@@ -481,6 +500,8 @@ def step (s : WState) : Op → Except Err WState
   | .closeStream => streamClose s
   | .writeCompressed items raws => writeCompressed s items raws
   | .close cat info tr raw => close s cat info tr raw
+  | .openStreamFail num gen => openStreamFail s num gen
+  | .rejected op => match step s op with | .error _ => .ok s | .ok _ => .error .other
 
 /-- run a program; on failure the index of the failing operation and the error -/
 def run : WState → List Op → Nat → Except (Nat × Err) WState
